@@ -69,6 +69,8 @@ def universe(tier, rng, streams):
     for a, b in itertools.product(KINDS, repeat=2):
         shapes.append(shape([seg([a, b])]))
         shapes.append(shape([seg([a, b], cont=2)], p=pos(blocks=["if"])))
+        shapes.append(shape([seg([a, b], cont=2)]))
+        shapes.append(shape([seg([a, "word", b], cont=3)], p=pos(semi="before")))
     # U3: two segments, every operator, every atom kind on either side; rc of the first segment both ways
     for op in OPS:
         for k in KINDS:
